@@ -62,6 +62,19 @@ def generate(rng, tier):
     for _ in range(20):
         s = rng.randrange(F10); ss, c2 = rbytes(rng, 16), rbytes(rng, 16)
         h = pyref.pin_hash(9876543210 % (1 << 32), s, ss, c2)
+    # digit-splitting boundaries: PINs of the form q*10^j - 1 (a run of trailing 9s under a large head: where a reciprocal-multiplication
+    # or a split into digit groups first goes wrong), q*10^j and q*10^j + 1, for every j and heads near the top of u32
+    for j in range(1, 10):
+        top = ((1 << 32) - 1) // 10 ** j
+        for q in sorted(set([1, 2, top, top - 1, max(1, top // 2), rng.randint(1, top), rng.randint(max(1, top * 3 // 4), top), rng.randint(max(1, top * 3 // 4), top)])):
+            for d in (-1, 0, 1):
+                pin = q * 10 ** j + d
+                if 0 <= pin < (1 << 32):
+                    cs += hash_case(rng, pin, rng.getrandbits(32), "pin-at-multiple-of-10^%d" % j)
+    # literals of the source under test (gen_util.source_dictionary): as PINs and as seeds
+    for v in new_ints(0, (1 << 32) - 1) + rng.sample(dict_ints(0, (1 << 32) - 1), 12):
+        cs += hash_case(rng, v, rng.getrandbits(32), "source-literal-as-pin")
+        cs += hash_case(rng, rng.randrange(1000, 1 << 32), v, "source-literal-as-seed")
     n = 4000 if tier == "quick" else 200000
     for _ in range(n):
         d = rng.randint(1, 10)
